@@ -411,7 +411,25 @@ fn fmt_history(h: &[Ev]) -> String {
 
 /// run + oracle; Ok((report, labels, nontrivial)) or Err(violation / inconclusive)
 fn judge(case: &Case) -> CaseResult {
+    let r = judge_once(case, std::env::var_os("VF_CHAN_DETCHECK").is_some());
+    if r.is_violation() {
+        // determinism guard: only report what an independent second execution confirms
+        let again = judge_once(case, false);
+        if !again.is_violation() || again.labels.first() != r.labels.first() {
+            return CaseResult::inconclusive("a violation did not reproduce on immediate re-execution (harness non-determinism)").label("non-reproducible");
+        }
+    }
+    r
+}
+
+fn judge_once(case: &Case, detcheck: bool) -> CaseResult {
     let out = execute(case);
+    if detcheck {
+        let b = execute(case);
+        if b.report.trace != out.report.trace || b.report.decisions != out.report.decisions || format!("{:?}", b.history) != format!("{:?}", out.history) {
+            panic!("harness non-determinism: two executions of the same case differ\nA: {}{}\nB: {}{}", out.report.describe(200), fmt_history(&out.history), b.report.describe(200), fmt_history(&b.history));
+        }
+    }
     let rep = &out.report;
     if let Some(p) = rep.panics.first() {
         if p.location.contains("/harness/crates/") || p.location.contains("crates/vf-") {
